@@ -20,6 +20,29 @@ theorem refRelated_refl (b : Base) : refRelated b b = true := by
 theorem conv_of_sameOrBaseOf {t s : Base} (h : sameOrBaseOf t s = true) : conv s t = true := by
   cases t <;> cases s <;> first | rfl | (exfalso; revert h; decide)
 
+/-- an explicit-only conversion is not an implicit one -/
+theorem conv_false_of_onlyExplicit {s t : Base} (h : onlyExplicit s t = true) : conv s t = false := by
+  cases s <;> cases t <;> first | rfl | (exfalso; revert h; decide)
+
+/-- a scoped enumeration / a class with an explicit conversion function converts implicitly to itself only, and
+    only itself converts implicitly to it -/
+theorem conv_isExplicitOnly {s t : Base} (h : s.isExplicitOnly = true ∨ t.isExplicitOnly = true) :
+    conv s t = (s == t) := by
+  cases s <;> cases t <;> first | rfl | (exfalso; revert h; decide)
+
+/-- the explicit-only types are neither arithmetic nor pointers -/
+theorem not_isArith_of_isExplicitOnly {b : Base} (h : b.isExplicitOnly = true) : b.isArith = false := by
+  cases b <;> first | rfl | (exfalso; revert h; decide)
+
+/-- no implicit conversion from an explicit-only type to an arithmetic type -/
+theorem conv_false_arith_of_isExplicitOnly {s t : Base} (hs : s.isExplicitOnly = true) (ht : t.isArith = true) :
+    conv s t = false := by
+  cases s <;> cases t <;> first | rfl | (exfalso; revert hs ht; decide)
+
+/-- `static_cast` is at least as permissive as initialisation -/
+theorem castOk_of_binds {p : Param} {e : ExprTy} (h : binds p e = true) : castOk p e = true := by
+  simp [castOk, h]
+
 /-- whatever the declared shape, a parameter only binds an argument whose object type converts to its own -/
 theorem conv_of_binds {p : Param} {e : ExprTy} (h : binds p e = true) : conv e.base p.base = true := by
   obtain ⟨pb, ps⟩ := p
